@@ -19,7 +19,8 @@ use litep2p::{
                 ConnectionType, KademliaMessage, KademliaPeer, Key, VerifKadDump, VerifKademlia,
                 VerifProbe, VerifProbeEntry,
             },
-            ConfigBuilder, ContentProvider, KademliaEvent, KademliaHandle, Quorum, Record, RecordKey,
+            ConfigBuilder, ContentProvider, IncomingRecordValidationMode, KademliaEvent, KademliaHandle, Quorum, Record,
+            RecordKey, RoutingTableUpdateMode,
         },
         verif::{VerifConnection, VerifServiceInput},
         TransportService,
@@ -52,13 +53,18 @@ const BOGUS_BASE: u64 = 50_000;
 const MAX_POOL: u64 = 10;
 /// provider refresh interval of the node under test (tokio time is paused and advanced by hand)
 const REFRESH_SECS: u64 = 1000;
+const REFRESH_MS: u64 = REFRESH_SECS * 1000;
+/// more than WRITE_TIMEOUT, more than READ_TIMEOUT of the executor
+const TIMEOUT_MS: u64 = 16_000;
 
 // ------------------------------------------------------------------ in-memory substream carrier
 
 #[derive(Default)]
 struct CarrierState {
-    /// 0 writes block, 1 writes are accepted, 2 writes fail
+    /// 0 writes block, 1 writes are accepted, 2 writes fail, 3 writes are taken but the flush blocks
     wmode: u8,
+    /// what was written
+    written: Vec<u8>,
     rq: VecDeque<u8>,
     eof: bool,
     rwaker: Option<Waker>,
@@ -73,6 +79,10 @@ impl Carrier {
     fn awaited(&self) -> bool {
         let s = self.0.lock().unwrap();
         s.rwaker.is_some() || s.wwaker.is_some()
+    }
+
+    fn take_written(&self) -> Vec<u8> {
+        std::mem::take(&mut self.0.lock().unwrap().written)
     }
 
     fn set(&self, wmode: Option<u8>, data: Option<Vec<u8>>, eof: bool) {
@@ -123,13 +133,21 @@ impl AsyncWrite for Carrier {
                 s.wwaker = Some(cx.waker().clone());
                 Poll::Pending
             }
-            1 => Poll::Ready(Ok(buf.len())),
+            1 | 3 => {
+                s.written.extend_from_slice(buf);
+                Poll::Ready(Ok(buf.len()))
+            }
             _ => Poll::Ready(Err(std::io::ErrorKind::BrokenPipe.into())),
         }
     }
-    fn poll_flush(self: Pin<&mut Self>, _: &mut Context<'_>) -> Poll<std::io::Result<()>> {
-        match self.0.lock().unwrap().wmode {
+    fn poll_flush(self: Pin<&mut Self>, cx: &mut Context<'_>) -> Poll<std::io::Result<()>> {
+        let mut s = self.0.lock().unwrap();
+        match s.wmode {
             2 => Poll::Ready(Err(std::io::ErrorKind::BrokenPipe.into())),
+            3 => {
+                s.wwaker = Some(cx.waker().clone());
+                Poll::Pending
+            }
             _ => Poll::Ready(Ok(())),
         }
     }
@@ -148,6 +166,16 @@ enum Msg {
     AddProvider(bool),
     GetProviders { haskey: bool, provs: Vec<(u64, Vec<u64>)>, peers: Vec<u64> },
     Invalid,
+}
+
+/// A request read from an inbound substream (composed mode): the record key is a label.
+#[derive(Clone, Debug, PartialEq)]
+enum Req {
+    FindNode(u64),
+    PutValue(u64),
+    GetValue(u64),
+    GetProviders(u64),
+    AddProvider(bool),
 }
 
 #[derive(Clone, Debug, PartialEq)]
@@ -175,13 +203,21 @@ enum Ev {
     OpenFail(u64),
     DialFail(u64),
     Inbound(u64, u64),
-    /// `how`: 0 the carrier produces the result, 1 the 15 s executor timeout does
-    Fut { id: u64, res: Res, how: u64 },
+    /// What the substream of executor future `id` does. wb: the write side 0 accepts the frame, 1 fails,
+    /// 2 blocks for ever; rb: the read side 0 delivers `msg`, 1 ends, 2 stays silent. `tmo`: the harness
+    /// let 16 s pass with this future in flight (filled in when the event is applied).
+    Fut { id: u64, wb: u64, rb: u64, msg: Option<Msg>, tmo: bool },
+    /// composed mode: the read future of inbound substream `id` delivers a request
+    InReq { id: u64, rq: Req },
+    /// composed mode: stop_providing(key rk)
+    UStop(u64),
+    /// composed mode: the store's refresh timer for key rk fires; q = label of the refresh operation
+    UFire { q: u64, rk: u64 },
     /// bounded event channel only: the user receives one event
     Recv,
     // composed mode (routing table and store computed by the model): user-level events
-    /// uc: 0 find_node, 1 put_record, 2 start_providing, 3 get_record, 4 get_providers, 5 refresh;
-    /// rk: label of the record key (put / get) or of the refreshed start_providing operation
+    /// uc: 0 find_node, 1 put_record, 2 start_providing, 3 get_record, 4 get_providers;
+    /// rk: label of the record key (put / get / start_providing)
     UCmd { q: u64, uc: u64, qtag: u64, qn: u64, rk: u64 },
     UPutToPeers { q: u64, qtag: u64, qn: u64, rk: u64, given: Vec<u64> },
     UStore(u64),
@@ -257,18 +293,37 @@ impl Ev {
             Ev::OpenFail(sid) => o.extend([9, *sid]),
             Ev::DialFail(p) => o.extend([10, *p]),
             Ev::Inbound(p, id) => o.extend([11, *p, *id]),
-            Ev::Fut { id, res, how } => {
-                o.extend([12, *id]);
-                match res {
-                    Res::SendOk => o.extend([0, *how]),
-                    Res::Assume => o.extend([1, *how]),
-                    Res::SendFail => o.extend([2, *how]),
-                    Res::ReadFail => o.extend([3, *how]),
-                    Res::Read(m) => {
-                        o.extend([4, *how]);
-                        m.encode(&mut o);
-                    }
+            Ev::Fut { id, wb, rb, msg, tmo } => {
+                let rb = if *rb == 0 && msg.is_none() { 1 } else { *rb };
+                o.extend([12, *id, *wb, rb, *tmo as u64]);
+                if rb == 0 {
+                    msg.as_ref().unwrap().encode(&mut o);
                 }
+            }
+            Ev::InReq { id, rq } => {
+                o.extend([19, *id]);
+                let key = |rk: u64| Key::new(Sys::key_of(rk)).verif_raw().iter().map(|b| *b as u64).collect::<Vec<u64>>();
+                match rq {
+                    Req::FindNode(rk) => {
+                        o.extend([0, *rk]);
+                        o.extend(key(*rk));
+                    }
+                    Req::PutValue(rk) => o.extend([1, *rk]),
+                    Req::GetValue(rk) => {
+                        o.extend([2, *rk]);
+                        o.extend(key(*rk));
+                    }
+                    Req::GetProviders(rk) => {
+                        o.extend([3, *rk]);
+                        o.extend(key(*rk));
+                    }
+                    Req::AddProvider(v) => o.extend([4, *v as u64]),
+                }
+            }
+            Ev::UStop(rk) => o.extend([20, *rk]),
+            Ev::UFire { q, rk } => {
+                o.extend([21, *q, *rk]);
+                o.extend(Key::new(Sys::key_of(*rk)).verif_raw().iter().map(|b| *b as u64));
             }
         }
         o
@@ -415,17 +470,49 @@ fn decode_case(c: &[u64]) -> Option<(Header, Vec<Ev>)> {
             11 => Ev::Inbound(r.n()?, r.n()?),
             12 => {
                 let id = r.n()?;
-                let rtag = r.n()?;
-                let how = r.n()?;
-                let res = match rtag {
-                    0 => Res::SendOk,
-                    1 => Res::Assume,
-                    2 => Res::SendFail,
-                    3 => Res::ReadFail,
-                    4 => Res::Read(decode_msg(&mut r)?),
+                let wb = r.n()?;
+                let rb = r.n()?;
+                let _tmo = r.n()?;
+                let msg = if rb == 0 { Some(decode_msg(&mut r)?) } else { None };
+                Ev::Fut { id, wb, rb, msg, tmo: false }
+            }
+            19 => {
+                let id = r.n()?;
+                let mut skip_key = |r: &mut Cursor| -> Option<()> {
+                    for _ in 0..32 {
+                        r.n()?;
+                    }
+                    Some(())
+                };
+                let rq = match r.n()? {
+                    0 => {
+                        let rk = r.n()?;
+                        skip_key(&mut r)?;
+                        Req::FindNode(rk)
+                    }
+                    1 => Req::PutValue(r.n()?),
+                    2 => {
+                        let rk = r.n()?;
+                        skip_key(&mut r)?;
+                        Req::GetValue(rk)
+                    }
+                    3 => {
+                        let rk = r.n()?;
+                        skip_key(&mut r)?;
+                        Req::GetProviders(rk)
+                    }
+                    4 => Req::AddProvider(r.n()? != 0),
                     _ => return None,
                 };
-                Ev::Fut { id, res, how }
+                Ev::InReq { id, rq }
+            }
+            20 => Ev::UStop(r.n()?),
+            21 => {
+                let e = Ev::UFire { q: r.n()?, rk: r.n()? };
+                for _ in 0..32 {
+                    r.n()?;
+                }
+                e
             }
             _ => return None,
         };
@@ -443,14 +530,14 @@ fn decode_case(c: &[u64]) -> Option<(Header, Vec<Ev>)> {
 fn target_key(q: u64, uc: u64, rk: u64) -> [u8; 32] {
     match uc {
         0 => Key::from(mk_peer(1_000 + q)).verif_raw(),
-        1 | 3 | 5 => Key::new(Sys::key_of(rk)).verif_raw(),
+        1 | 2 | 3 => Key::new(Sys::key_of(rk)).verif_raw(),
         _ => Key::new(Sys::key_of(q)).verif_raw(),
     }
 }
 
 fn mk_peer(i: u64) -> PeerId {
     let mut b = vec![0x00u8, 0x24, 0x08, 0x01, 0x12, 0x20];
-    let mut r = Rng::new(0xC16_0000 + i);
+    let mut r = Rng::derive(0xC16_0000 + i);
     for _ in 0..4 {
         b.extend(r.next().to_le_bytes());
     }
@@ -507,11 +594,17 @@ struct Sys {
     sub_peer: HashMap<u64, u64>,
     /// substream id -> real query id of the action it was opened for
     fut_query: HashMap<u64, usize>,
-    /// seconds the paused clock has been advanced
     mode: u64,
-    now_s: u64,
-    /// start_providing operations: (label, refresh deadline, qtag, qn)
+    /// milliseconds the paused clock has been advanced
+    now_ms: u64,
+    /// base mode: start_providing operations: (label, refresh deadline, qtag, qn)
     provided: Vec<(u64, u64, u64, u64)>,
+    /// composed mode: keys this node provides (key label -> quorum) and the armed refresh timers of the
+    /// store (key label, deadline)
+    prov: HashMap<u64, (u64, u64)>,
+    timers: Vec<(u64, u64)>,
+    /// composed mode: replies written to inbound substreams while the current event was handled
+    replies: Vec<(bool, Vec<u64>)>,
     cap: u64,
     /// bounded channel: the loop is blocked in a handler on a full event channel
     parked: bool,
@@ -539,9 +632,15 @@ impl Sys {
             ProtocolCodec::UnsignedVarint(Some(70 * 1024)),
             Duration::from_secs(3600 * 24),
         );
-        let builder = ConfigBuilder::new()
+        let mut builder = ConfigBuilder::new()
             .with_replication_factor(h.k as usize)
             .with_provider_refresh_interval(Duration::from_secs(REFRESH_SECS));
+        if h.mode & 4 != 0 {
+            builder = builder.with_routing_table_update_mode(RoutingTableUpdateMode::Manual);
+        }
+        if h.mode & 8 != 0 {
+            builder = builder.with_incoming_records_validation_mode(IncomingRecordValidationMode::Manual);
+        }
         let (config, handle) = if h.cap == 0 { builder.build() } else { builder.verif_build_bounded(h.cap as usize) };
         let probe = VerifProbe::default();
         let mut kad = VerifKademlia::new(service, config, probe.clone());
@@ -573,8 +672,11 @@ impl Sys {
             sub_peer: HashMap::new(),
             fut_query: HashMap::new(),
             mode: h.mode,
-            now_s: 0,
+            now_ms: 0,
             provided: Vec::new(),
+            prov: HashMap::new(),
+            timers: Vec::new(),
+            replies: Vec::new(),
             cap: h.cap,
             parked: false,
             recv_buf: Vec::new(),
@@ -722,6 +824,52 @@ impl Sys {
         varint_frame(&payload)
     }
 
+    /// A request of a remote peer about the record key with label `rk`.
+    fn req_bytes(&self, sender: u64, rq: &Req) -> Vec<u8> {
+        let payload: Vec<u8> = match rq {
+            Req::FindNode(rk) => KademliaMessage::find_node(Self::key_of(*rk).to_vec()).to_vec(),
+            Req::PutValue(rk) => KademliaMessage::put_value(Record {
+                key: Self::key_of(*rk),
+                value: vec![LOCAL_REC],
+                publisher: None,
+                expires: None,
+            })
+            .to_vec(),
+            Req::GetValue(rk) => KademliaMessage::get_record(Self::key_of(*rk)).to_vec(),
+            Req::GetProviders(rk) => KademliaMessage::get_providers_request(Self::key_of(*rk)).to_vec(),
+            Req::AddProvider(valid) => {
+                let who = if *valid { self.peer(sender) } else { mk_peer(424_242) };
+                KademliaMessage::add_provider(
+                    RecordKey::from(vec![250u8, 1, 2]),
+                    ContentProvider { peer: who, addresses: vec![self.addrs[0].clone()] },
+                )
+                .to_vec()
+            }
+        };
+        varint_frame(&payload)
+    }
+
+    /// The reply the node wrote to inbound substream `id`: (a record is attached, the closer peers).
+    fn take_reply(&self, id: u64) -> Option<(bool, Vec<u64>)> {
+        let bytes = self.carriers.get(&id)?.take_written();
+        // unsigned-varint length prefix
+        let mut i = 0;
+        while i < bytes.len() && bytes[i] & 0x80 != 0 {
+            i += 1;
+        }
+        if i >= bytes.len() {
+            return None;
+        }
+        let body = bytes::BytesMut::from(&bytes[i + 1..]);
+        let labels = |ps: &Vec<KademliaPeer>| ps.iter().map(|p| self.idx(&p.verif_peer())).collect::<Vec<u64>>();
+        match KademliaMessage::from_bytes(body, 64)? {
+            KademliaMessage::FindNode { peers, .. } => Some((false, labels(&peers))),
+            KademliaMessage::GetRecord { record, peers, .. } => Some((record.is_some(), labels(&peers))),
+            KademliaMessage::GetProviders { peers, .. } => Some((false, labels(&peers))),
+            _ => None,
+        }
+    }
+
     fn quorum(qtag: u64, qn: u64) -> Quorum {
         match qtag {
             0 => Quorum::All,
@@ -766,6 +914,9 @@ impl Sys {
         // select! iterations this event causes (get_record with a local record = store_record + get_record)
         let mut iterations = 1usize;
         let mut refresh_label: Option<u64> = None;
+        let mut want_reply: Option<u64> = None;
+        let mut applied: Option<(u64, u64, bool)> = None;
+        self.replies.clear();
         match &e {
             Ev::Cmd { q, ctag, qtag, qn, local, .. } => {
                 let quorum = Self::quorum(*qtag, *qn);
@@ -777,17 +928,17 @@ impl Sys {
                         .try_put_record(Record { key, value: vec![9], publisher: None, expires: None }, quorum)
                         .ok(),
                     2 => {
-                        self.provided.push((*q, self.now_s + REFRESH_SECS, *qtag, *qn));
+                        self.provided.push((*q, self.now_ms + REFRESH_MS, *qtag, *qn));
                         self.handle.start_providing(key, quorum).now_or_never()
                     }
                     5 => {
                         // the store's refresh timer of an earlier start_providing fires
-                        let now = self.now_s;
+                        let now = self.now_ms;
                         if let Some(entry) = self.provided.iter_mut().find(|x| x.0 + 1 == *local) {
                             let wait = entry.1.saturating_sub(now) + 1;
-                            entry.1 = now + wait + REFRESH_SECS;
-                            tokio::time::advance(Duration::from_secs(wait)).await;
-                            self.now_s += wait;
+                            entry.1 = now + wait + REFRESH_MS;
+                            tokio::time::advance(Duration::from_millis(wait)).await;
+                            self.now_ms += wait;
                             refresh_label = Some(*q);
                         } else {
                             expect = false;
@@ -840,24 +991,22 @@ impl Sys {
                         )
                         .ok(),
                     2 => {
-                        self.provided.push((*q, self.now_s + REFRESH_SECS, *qtag, *qn));
-                        self.handle.start_providing(Self::key_of(*q), quorum).now_or_never()
+                        // put_local_provider arms a refresh timer of the store; no two timers share a
+                        // deadline (they are fired one at a time)
+                        while self.timers.iter().any(|t| t.1.abs_diff(self.now_ms + REFRESH_MS) < 3) {
+                            if self.timers.iter().any(|t| t.1 <= self.now_ms + 3) {
+                                // the clock cannot be moved without firing a timer: the command is not issued
+                                return Vec::new();
+                            }
+                            tokio::time::advance(Duration::from_millis(1)).await;
+                            self.now_ms += 1;
+                        }
+                        self.prov.insert(*rk, (*qtag, *qn));
+                        self.timers.push((*rk, self.now_ms + REFRESH_MS));
+                        self.handle.start_providing(Self::key_of(*rk), quorum).now_or_never()
                     }
                     3 => self.handle.try_get_record(Self::key_of(*rk), quorum).ok(),
-                    4 => self.handle.get_providers(Self::key_of(*q)).now_or_never(),
-                    _ => {
-                        let now = self.now_s;
-                        if let Some(entry) = self.provided.iter_mut().find(|x| x.0 == *rk) {
-                            let wait = entry.1.saturating_sub(now) + 1;
-                            entry.1 = now + wait + REFRESH_SECS;
-                            tokio::time::advance(Duration::from_secs(wait)).await;
-                            self.now_s += wait;
-                            refresh_label = Some(*q);
-                        } else {
-                            expect = false;
-                        }
-                        None
-                    }
+                    _ => self.handle.get_providers(Self::key_of(*q)).now_or_never(),
                 };
                 if let Some(r) = r {
                     self.qmap.insert(r.0, *q);
@@ -877,6 +1026,52 @@ impl Sys {
                 if let Some(r) = r {
                     self.qmap.insert(r.0, *q);
                     real_q = Some(r.0);
+                }
+            }
+            Ev::UStop(rk) => {
+                self.prov.remove(rk);
+                let _ = self.handle.stop_providing(Self::key_of(*rk)).now_or_never();
+            }
+            Ev::UFire { q, rk } => {
+                // the earliest timer of the store fires (only that one: deadlines are kept apart)
+                let first = self.timers.iter().enumerate().min_by_key(|(_, t)| t.1).map(|(i, t)| (i, *t));
+                match first {
+                    Some((i, (key, deadline))) if key == *rk => {
+                        self.timers.remove(i);
+                        // every other timer is due at least 3 ms later, every timer was armed before
+                        // `deadline`: the one armed by the refresh keeps that distance too
+                        let at = deadline.max(self.now_ms) + 2;
+                        let wait = at - self.now_ms;
+                        tokio::time::advance(Duration::from_millis(wait)).await;
+                        self.now_ms += wait;
+                        if self.prov.contains_key(rk) {
+                            self.timers.push((*rk, self.now_ms + REFRESH_MS));
+                            refresh_label = Some(*q);
+                        }
+                    }
+                    _ => expect = false,
+                }
+            }
+            Ev::InReq { id, rq } => {
+                expect = false;
+                let live = self.carriers.get(id).map(|c| c.awaited()).unwrap_or(false);
+                if let (Some(c), Some(FKind::InRead), true) = (self.carriers.get(id).cloned(), self.inflight.get(id).copied(), live) {
+                    expect = true;
+                    let sender = self.sub_peer.get(id).copied().unwrap_or(0);
+                    c.set(None, Some(self.req_bytes(sender, rq)), false);
+                    self.inflight.remove(id);
+                    let reply = match rq {
+                        Req::FindNode(_) | Req::GetValue(_) | Req::GetProviders(_) => Some(FKind::InSend),
+                        Req::PutValue(_) => Some(FKind::InSendEat),
+                        Req::AddProvider(_) => None,
+                    };
+                    if let Some(k) = reply {
+                        self.inflight.insert(*id, k);
+                        touched = Some(*id);
+                        if k == FKind::InSend {
+                            want_reply = Some(*id);
+                        }
+                    }
                 }
             }
             Ev::UStore(rk) => {
@@ -952,6 +1147,8 @@ impl Sys {
                 expect = !self.carriers.contains_key(id);
                 if !self.carriers.contains_key(id) {
                     let carrier = Carrier::default();
+                    // the reply is taken (and kept for comparison) but not flushed until the environment says so
+                    carrier.set(Some(3), None, false);
                     self.carriers.insert(*id, carrier.clone());
                     self.sub_peer.insert(*id, *p);
                     let conn = self.conns.get(p).unwrap_or(&self.dummy);
@@ -971,73 +1168,83 @@ impl Sys {
                     _ => self.last_recv_none = true,
                 }
             }
-            Ev::Fut { id, res, how } => {
+            Ev::Fut { id, wb, rb, msg, .. } => {
                 expect = false;
                 let live = self.carriers.get(id).map(|c| c.awaited()).unwrap_or(false);
                 if let (Some(c), Some(kind), true) = (self.carriers.get(id).cloned(), self.inflight.get(id).copied(), live || self.cap == 0) {
                     let sender = self.sub_peer.get(id).copied().unwrap_or(0);
-                    let by_timeout = *how == 1 && self.inflight.len() == 1;
-                    let valid = matches!(
-                        (kind, res),
-                        (FKind::ReqResp, Res::SendFail | Res::Read(_) | Res::ReadFail)
-                            | (FKind::ReqEat, Res::SendFail | Res::Read(_) | Res::Assume)
-                            | (FKind::Send | FKind::InSend, Res::SendOk | Res::SendFail)
-                            | (FKind::InRead, Res::Read(_) | Res::ReadFail)
-                            | (FKind::InSendEat, Res::SendOk | Res::Assume)
-                    );
-                    if valid {
-                        expect = true;
-                        let write_stage = matches!(res, Res::SendFail) || (kind == FKind::InSendEat && *res == Res::Assume);
-                        match res {
-                            Res::SendOk => c.set(Some(1), None, false),
-                            _ if write_stage => {
-                                if by_timeout {
-                                    tokio::time::advance(Duration::from_secs(16)).await;
-                                    self.now_s += 16;
-                                } else {
-                                    c.set(Some(2), None, false)
-                                }
+                    // a timeout can be played only when no other future would time out with it
+                    let sole = self.inflight.len() == 1
+                        && !self.timers.iter().any(|t| t.1 <= self.now_ms + 2 * TIMEOUT_MS)
+                        && !self.provided.iter().any(|t| t.1 <= self.now_ms + 2 * TIMEOUT_MS);
+                    let (mut wb, mut rb) = (*wb, *rb);
+                    if rb == 0 && msg.is_none() {
+                        rb = 1;
+                    }
+                    let mut timed = false;
+                    expect = true;
+                    let writes = kind != FKind::InRead;
+                    if writes {
+                        match wb {
+                            0 => c.set(Some(1), None, false),
+                            2 if sole => {
+                                tokio::time::advance(Duration::from_millis(TIMEOUT_MS)).await;
+                                self.now_ms += TIMEOUT_MS;
+                                timed = true;
                             }
-                            Res::Assume | Res::ReadFail => {
-                                // the request goes out (outbound futures), the answer never comes
-                                let w = if kind == FKind::InRead { None } else { Some(1) };
-                                if by_timeout {
-                                    c.set(w, None, false);
-                                    self.poll();
-                                    tokio::time::advance(Duration::from_secs(16)).await;
-                                    self.now_s += 16;
-                                } else {
-                                    c.set(w, None, true)
-                                }
+                            _ => {
+                                wb = 1;
+                                c.set(Some(2), None, false)
                             }
-                            Res::Read(m) => {
-                                let bytes = self.msg_bytes(sender, m);
-                                c.set(if kind == FKind::InRead { None } else { Some(1) }, Some(bytes), false)
-                            }
-                            _ => {}
                         }
-                        self.inflight.remove(id);
-                        // the reply future of an inbound request reuses the substream
-                        if kind == FKind::InRead {
-                            if let Res::Read(m) = res {
-                                let reply = match m {
-                                    Msg::FindNode(_) => Some(FKind::InSend),
-                                    Msg::PutValue => Some(FKind::InSendEat),
-                                    Msg::GetRecord { haskey: true, .. } => Some(FKind::InSend),
-                                    Msg::GetProviders { haskey: true, .. } => Some(FKind::InSend),
-                                    _ => None,
-                                };
-                                if let Some(k) = reply {
-                                    self.inflight.insert(*id, k);
-                                    touched = Some(*id);
-                                }
+                    }
+                    let reads = kind == FKind::InRead || (matches!(kind, FKind::ReqResp | FKind::ReqEat) && wb == 0);
+                    if reads {
+                        match rb {
+                            0 => c.set(None, Some(self.msg_bytes(sender, msg.as_ref().unwrap())), false),
+                            2 if sole => {
+                                // the request goes out (outbound futures), the answer never comes
+                                self.poll();
+                                tokio::time::advance(Duration::from_millis(TIMEOUT_MS)).await;
+                                self.now_ms += TIMEOUT_MS;
+                                timed = true;
                             }
+                            _ => {
+                                rb = 1;
+                                c.set(None, None, true)
+                            }
+                        }
+                    }
+                    applied = Some((wb, rb, timed));
+                    self.inflight.remove(id);
+                    // the reply future of an inbound request reuses the substream
+                    if kind == FKind::InRead && rb == 0 {
+                        let reply = match msg.as_ref().unwrap() {
+                            Msg::FindNode(_) => Some(FKind::InSend),
+                            Msg::PutValue => Some(FKind::InSendEat),
+                            Msg::GetRecord { haskey: true, .. } => Some(FKind::InSend),
+                            Msg::GetProviders { haskey: true, .. } => Some(FKind::InSend),
+                            _ => None,
+                        };
+                        if let Some(k) = reply {
+                            self.inflight.insert(*id, k);
+                            touched = Some(*id);
                         }
                     }
                 }
             }
         }
+        if let (Ev::Fut { wb, rb, tmo, .. }, Some((w, r, t))) = (&mut e, applied) {
+            *wb = w;
+            *rb = r;
+            *tmo = t;
+        }
         self.poll();
+        if let Some(id) = want_reply {
+            if let Some(r) = self.take_reply(id) {
+                self.replies.push(r);
+            }
+        }
         if let Some(label) = refresh_label {
             // the internal query id drawn from the shared counter: the one the loop reports and the
             // harness has not seen yet
@@ -1339,6 +1546,22 @@ impl Sys {
             .collect();
         keys.sort();
         push_list(out, &keys);
+        let mut provs: Vec<u64> = d
+            .local_providers
+            .iter()
+            .map(|k| match k.as_slice() {
+                [a, b, 7, 7] => *a as u64 + 256 * *b as u64,
+                _ => 999,
+            })
+            .collect();
+        provs.sort();
+        push_list(out, &provs);
+        out.push(d.refresh_timers as u64);
+        out.push(self.replies.len() as u64);
+        for (found, peers) in &self.replies {
+            out.push(*found as u64);
+            push_list(out, peers);
+        }
     }
 
     fn live_futs(&self) -> Vec<(u64, FKind)> {
@@ -1390,6 +1613,20 @@ fn run_stored(c: &[u64]) -> Option<(Vec<u64>, Vec<u64>)> {
         }
         Some((encode_case(&h, &events), trace))
     }))
+}
+
+/// The behaviour of the substream that makes a future of this kind end with `res`
+/// (`how` 1: by the executor timeout instead of an error).
+fn fut_ev(id: u64, kind: Option<FKind>, res: Res, how: u64) -> Ev {
+    let t = if how == 1 { 2 } else { 1 };
+    let (wb, rb, msg) = match res {
+        Res::SendOk => (0, 1, None),
+        Res::SendFail => (t, 1, None),
+        Res::Assume if kind == Some(FKind::InSendEat) => (t, 1, None),
+        Res::Assume | Res::ReadFail => (0, t, None),
+        Res::Read(m) => (0, 0, Some(m)),
+    };
+    Ev::Fut { id, wb, rb, msg, tmo: false }
 }
 
 struct Gen {
@@ -1446,6 +1683,28 @@ impl Gen {
                 }
             }
         }
+    }
+
+    /// The completion of a future; in composed mode a request read from an inbound substream is a
+    /// request about a record key (label), so that the model computes the reply and the store effect.
+    fn completion(&mut self, compose: bool, id: u64, kind: FKind, res: Res, how: u64, rks: &[u64]) -> Ev {
+        if compose && kind == FKind::InRead {
+            if let Res::Read(m) = &res {
+                let rk = if !rks.is_empty() && self.rng.chance(65) { self.rng.pick(rks) } else { 300 + self.rng.below(4) };
+                let rq = match m {
+                    Msg::FindNode(_) => Some(Req::FindNode(rk)),
+                    Msg::PutValue => Some(Req::PutValue(rk)),
+                    Msg::GetRecord { .. } => Some(Req::GetValue(rk)),
+                    Msg::GetProviders { .. } => Some(Req::GetProviders(rk)),
+                    Msg::AddProvider(v) => Some(Req::AddProvider(*v)),
+                    Msg::Invalid => None,
+                };
+                if let Some(rq) = rq {
+                    return Ev::InReq { id, rq };
+                }
+            }
+        }
+        fut_ev(id, Some(kind), res, how)
     }
 
     /// A message fitting the query the future belongs to (tag of the query in the engine).
@@ -1545,7 +1804,12 @@ fn generate(seed: u64, tier_long: bool, cap: u64, compose: bool, stale: bool) ->
             known.push(p);
         }
     }
-    let h = Header { k, mgr, known, cap, mode: compose as u64 | (stale as u64) << 1, pool: MAX_POOL };
+    // composed mode: one history in four with manual routing-table updates, one in four with manual
+    // validation of incoming records
+    let manual_rt = compose && rng.chance(25);
+    let manual_val = compose && rng.chance(25);
+    let mode = compose as u64 | (stale as u64) << 1 | (manual_rt as u64) << 2 | (manual_val as u64) << 3;
+    let h = Header { k, mgr, known, cap, mode, pool: MAX_POOL };
     let mut g = Gen { rng, n, k, next_q: 0, next_inbound: INBOUND_BASE, answered: Vec::new(), dial_answered: Vec::new() };
     let rt = runtime();
     // unconstrained: tokio's cooperative budget would make channel polls return Pending spuriously
@@ -1585,8 +1849,12 @@ fn generate(seed: u64, tier_long: bool, cap: u64, compose: bool, stale: bool) ->
             if !futs.is_empty() {
                 choices.extend([3, 3, 3, 3]);
             }
-            if s.provided.len() == 1 && futs.is_empty() && refreshes < 2 && !s.parked {
+            let refresh_possible = if compose { !s.timers.is_empty() } else { s.provided.len() == 1 };
+            if refresh_possible && futs.is_empty() && refreshes < if compose { 3 } else { 2 } && !s.parked {
                 choices.push(5);
+                if compose {
+                    choices.push(5);
+                }
             }
             choices.push(4);
             if cap > 0 && (s.parked || g.rng.chance(35)) {
@@ -1621,7 +1889,13 @@ fn generate(seed: u64, tier_long: bool, cap: u64, compose: bool, stale: bool) ->
                             if uc == 1 {
                                 rks.push(q);
                             }
-                            Ev::UCmd { q, uc, qtag, qn, rk: if uc == 1 { q } else { rk } }
+                            // few provider keys: start_providing the same key again arms a second timer
+                            let rk = match uc {
+                                1 => q,
+                                2 => 500 + g.rng.below(3),
+                                _ => rk,
+                            };
+                            Ev::UCmd { q, uc, qtag, qn, rk }
                         }
                     } else if g.rng.chance(25) {
                         let peers = g.peers_list(4, true);
@@ -1641,6 +1915,10 @@ fn generate(seed: u64, tier_long: bool, cap: u64, compose: bool, stale: bool) ->
                         if s.conns.contains_key(&p) {
                             // the stale connection goes away first
                             events.extend(s.apply(&Ev::Closed(p), &mut trace).await);
+                            if s.parked {
+                                // the loop blocks on the full event channel: it takes no event now
+                                continue;
+                            }
                         }
                         Ev::Established(p, g.rng.chance(90))
                     } else {
@@ -1662,12 +1940,14 @@ fn generate(seed: u64, tier_long: bool, cap: u64, compose: bool, stale: bool) ->
                 }
                 5 => {
                     refreshes += 1;
-                    let (label, _, qtag, qn) = s.provided[0];
                     let q = g.next_q;
                     g.next_q += 1;
                     if compose {
-                        Ev::UCmd { q, uc: 5, qtag, qn, rk: label }
+                        // the earliest timer of the store
+                        let rk = s.timers.iter().min_by_key(|t| t.1).map(|t| t.0).unwrap_or(0);
+                        Ev::UFire { q, rk }
                     } else {
+                        let (label, _, qtag, qn) = s.provided[0];
                         Ev::Cmd { q, ctag: 5, qtag, qn, local: label + 1, dists: vec![], seeds: vec![] }
                     }
                 }
@@ -1676,7 +1956,7 @@ fn generate(seed: u64, tier_long: bool, cap: u64, compose: bool, stale: bool) ->
                     let qtag = fut_query_tag(&s, id);
                     let res = g.result_for(kind, qtag, happy);
                     let how = if futs.len() == 1 && g.rng.chance(25) { 1 } else { 0 };
-                    Ev::Fut { id, res, how }
+                    g.completion(compose, id, kind, res, how, &rks)
                 }
                 _ => {
                     // noise: things that happen without being asked for
@@ -1702,7 +1982,7 @@ fn generate(seed: u64, tier_long: bool, cap: u64, compose: bool, stale: bool) ->
                         }
                         7 => Ev::OpenFail(BOGUS_BASE + g.rng.below(50)),
                         8 => Ev::DialFail(p),
-                        9 => Ev::Fut { id: BOGUS_BASE + g.rng.below(50), res: Res::SendOk, how: 0 },
+                        9 => fut_ev(BOGUS_BASE + g.rng.below(50), None, Res::SendOk, 0),
                         10 => {
                             if s.conns.contains_key(&p) {
                                 Ev::Opened(p, BOGUS_BASE + g.rng.below(50))
@@ -1715,15 +1995,15 @@ fn generate(seed: u64, tier_long: bool, cap: u64, compose: bool, stale: bool) ->
                 }
             };
             let ev = match ev {
-                Ev::Nop if compose => {
-                    if g.rng.chance(50) {
+                Ev::Nop if compose => match g.rng.below(5) {
+                    0 | 1 => {
                         let rk = 200 + g.rng.below(3);
                         rks.push(rk);
                         Ev::UStore(rk)
-                    } else {
-                        Ev::UAddKnown(g.rng.below(MAX_POOL), g.rng.chance(80))
                     }
-                }
+                    2 => Ev::UStop(500 + g.rng.below(3)),
+                    _ => Ev::UAddKnown(g.rng.below(MAX_POOL), g.rng.chance(80)),
+                },
                 e => e,
             };
             events.extend(s.apply(&ev, &mut trace).await);
@@ -1739,7 +2019,7 @@ fn generate(seed: u64, tier_long: bool, cap: u64, compose: bool, stale: bool) ->
                 } else if let Some((id, kind)) = futs.first().copied() {
                     let qtag = fut_query_tag(&s, id);
                     let res = g.result_for(kind, qtag, happy);
-                    Ev::Fut { id, res, how: 0 }
+                    g.completion(compose, id, kind, res, 0, &rks)
                 } else if let Some((sid, p)) = subs.first().copied() {
                     g.answered.push(sid);
                     if g.rng.chance(happy.max(40)) {
@@ -1805,7 +2085,7 @@ fn witnesses() -> Vec<(&'static str, Header, Vec<Ev>)> {
                 Ev::Opened(0, 0),
                 Ev::Mgr(0, 0),
                 Ev::Closed(0),
-                Ev::Fut { id: 0, res: Res::Read(Msg::FindNode(vec![])), how: 0 },
+                fut_ev(0, None, Res::Read(Msg::FindNode(vec![])), 0),
             ],
         ),
         (
@@ -1823,7 +2103,7 @@ fn witnesses() -> Vec<(&'static str, Header, Vec<Ev>)> {
                 Ev::Established(0, true),
                 cmd(0, 0, 0),
                 Ev::Opened(0, 0),
-                Ev::Fut { id: 0, res: Res::Read(Msg::Invalid), how: 0 },
+                fut_ev(0, None, Res::Read(Msg::Invalid), 0),
             ],
         ),
         (
@@ -1834,7 +2114,7 @@ fn witnesses() -> Vec<(&'static str, Header, Vec<Ev>)> {
                 Ev::Established(0, true),
                 cmd(0, 4, 0),
                 Ev::Opened(0, 0),
-                Ev::Fut { id: 0, res: Res::Read(Msg::AddProvider(true)), how: 0 },
+                fut_ev(0, None, Res::Read(Msg::AddProvider(true)), 0),
             ],
         ),
         (
@@ -1853,7 +2133,7 @@ fn witnesses() -> Vec<(&'static str, Header, Vec<Ev>)> {
                 cmd(0, 0, 0),
                 Ev::Opened(0, 0),
                 Ev::Closed(0),
-                Ev::Fut { id: 0, res: Res::ReadFail, how: 0 },
+                fut_ev(0, None, Res::ReadFail, 0),
             ],
         ),
         (
@@ -1865,14 +2145,14 @@ fn witnesses() -> Vec<(&'static str, Header, Vec<Ev>)> {
                 Ev::Established(0, true),
                 cmd(0, 2, 1),
                 Ev::Opened(0, 0),
-                Ev::Fut { id: 0, res: Res::Read(Msg::FindNode(vec![])), how: 0 },
+                fut_ev(0, None, Res::Read(Msg::FindNode(vec![])), 0),
                 Ev::Opened(0, 1),
-                Ev::Fut { id: 1, res: Res::SendOk, how: 0 },
+                fut_ev(1, None, Res::SendOk, 0),
                 Ev::Cmd { q: 1, ctag: 5, qtag: 1, qn: 1, local: 1, dists: vec![], seeds: vec![] },
                 Ev::Opened(0, 2),
-                Ev::Fut { id: 2, res: Res::Read(Msg::FindNode(vec![])), how: 0 },
+                fut_ev(2, None, Res::Read(Msg::FindNode(vec![])), 0),
                 Ev::Opened(0, 3),
-                Ev::Fut { id: 3, res: Res::SendOk, how: 0 },
+                fut_ev(3, None, Res::SendOk, 0),
             ],
         ),
         (
@@ -1895,10 +2175,104 @@ fn witnesses() -> Vec<(&'static str, Header, Vec<Ev>)> {
                 Ev::Established(0, true),
                 cmd(0, 3, 1),
                 Ev::Opened(0, 0),
-                Ev::Fut { id: 0, res: Res::ReadFail, how: 1 },
+                fut_ev(0, None, Res::ReadFail, 1),
             ],
         ),
         full_bucket_witness(),
+        (
+            // the peer never takes the PUT_VALUE frame: the executor's write timeout ends the send phase
+            "write_timeout_put_value",
+            Header { k: 20, mgr: vec![(0, 2)], known: vec![0], cap: 0, mode: 0, pool: MAX_POOL },
+            vec![
+                Ev::Established(0, true),
+                Ev::PutToPeers { q: 0, qtag: 1, qn: 1, peers: vec![0] },
+                Ev::Opened(0, 0),
+                fut_ev(0, Some(FKind::ReqEat), Res::SendFail, 1),
+            ],
+        ),
+        (
+            // requests of a remote peer are served while a user operation is in flight: the replies come
+            // from the routing table and the store, the operation still ends with exactly one event
+            "inbound_served_during_operation",
+            Header { k: 20, mgr: vec![(0, 2), (1, 2)], known: vec![0], cap: 0, mode: 1, pool: MAX_POOL },
+            vec![
+                Ev::Established(0, true),
+                Ev::Established(1, true),
+                Ev::UCmd { q: 0, uc: 0, qtag: 1, qn: 1, rk: 0 },
+                Ev::Inbound(1, INBOUND_BASE),
+                Ev::InReq { id: INBOUND_BASE, rq: Req::FindNode(7) },
+                Ev::UCmd { q: 1, uc: 1, qtag: 1, qn: 1, rk: 9 },
+                Ev::Inbound(1, INBOUND_BASE + 1),
+                Ev::InReq { id: INBOUND_BASE + 1, rq: Req::GetValue(9) },
+                fut_ev(INBOUND_BASE, Some(FKind::InSend), Res::SendOk, 0),
+                fut_ev(INBOUND_BASE + 1, Some(FKind::InSend), Res::SendFail, 0),
+                Ev::Opened(0, 0),
+                fut_ev(0, Some(FKind::ReqResp), Res::Read(Msg::FindNode(vec![])), 0),
+                Ev::Opened(0, 1),
+                fut_ev(1, Some(FKind::ReqResp), Res::Read(Msg::FindNode(vec![])), 0),
+                Ev::Opened(0, 2),
+                fut_ev(2, Some(FKind::ReqEat), Res::Read(Msg::PutValue), 0),
+            ],
+        ),
+        (
+            // IncomingRecordValidationMode::Manual: an inbound PUT_VALUE is acknowledged and reported but not
+            // stored; a GET_VALUE finds nothing until the user calls store_record
+            "manual_validation_store_record",
+            Header { k: 20, mgr: vec![(1, 2)], known: vec![1], cap: 0, mode: 1 | 8, pool: MAX_POOL },
+            vec![
+                Ev::Established(1, true),
+                Ev::Inbound(1, INBOUND_BASE),
+                Ev::InReq { id: INBOUND_BASE, rq: Req::PutValue(5) },
+                fut_ev(INBOUND_BASE, Some(FKind::InSendEat), Res::SendOk, 0),
+                Ev::Inbound(1, INBOUND_BASE + 1),
+                Ev::InReq { id: INBOUND_BASE + 1, rq: Req::GetValue(5) },
+                fut_ev(INBOUND_BASE + 1, Some(FKind::InSend), Res::SendOk, 0),
+                Ev::UStore(5),
+                Ev::Inbound(1, INBOUND_BASE + 2),
+                Ev::InReq { id: INBOUND_BASE + 2, rq: Req::GetValue(5) },
+                fut_ev(INBOUND_BASE + 2, Some(FKind::InSend), Res::SendOk, 0),
+            ],
+        ),
+        (
+            // RoutingTableUpdateMode::Manual: the peers of a reply are reported, the lookup uses them, the
+            // routing table does not change until the user calls add_known_peer
+            "manual_routing_table_update",
+            Header { k: 20, mgr: vec![(0, 2), (1, 0), (2, 0)], known: vec![0], cap: 0, mode: 1 | 4, pool: MAX_POOL },
+            vec![
+                Ev::Established(0, true),
+                Ev::UCmd { q: 0, uc: 0, qtag: 1, qn: 1, rk: 0 },
+                Ev::Opened(0, 0),
+                fut_ev(0, Some(FKind::ReqResp), Res::Read(Msg::FindNode(vec![1, 2])), 0),
+                Ev::UAddKnown(1, true),
+            ],
+        ),
+        (
+            // the store's refresh timers: start_providing the same key twice arms two timers; the first
+            // that fires republishes, after stop_providing the others fire without effect
+            "refresh_timers_stop_providing",
+            Header { k: 20, mgr: vec![(0, 2)], known: vec![0], cap: 0, mode: 1, pool: MAX_POOL },
+            vec![
+                Ev::Established(0, true),
+                Ev::UCmd { q: 0, uc: 2, qtag: 1, qn: 1, rk: 500 },
+                Ev::Opened(0, 0),
+                fut_ev(0, Some(FKind::ReqResp), Res::Read(Msg::FindNode(vec![])), 0),
+                Ev::Opened(0, 1),
+                fut_ev(1, Some(FKind::Send), Res::SendOk, 0),
+                Ev::UCmd { q: 1, uc: 2, qtag: 1, qn: 1, rk: 500 },
+                Ev::Opened(0, 2),
+                fut_ev(2, Some(FKind::ReqResp), Res::Read(Msg::FindNode(vec![])), 0),
+                Ev::Opened(0, 3),
+                fut_ev(3, Some(FKind::Send), Res::SendOk, 0),
+                Ev::UFire { q: 2, rk: 500 },
+                Ev::Opened(0, 4),
+                fut_ev(4, Some(FKind::ReqResp), Res::Read(Msg::FindNode(vec![])), 0),
+                Ev::Opened(0, 5),
+                fut_ev(5, Some(FKind::Send), Res::SendOk, 0),
+                Ev::UStop(500),
+                Ev::UFire { q: 3, rk: 500 },
+                Ev::UFire { q: 4, rk: 500 },
+            ],
+        ),
         (
             // peer timeout staleness: with a zero peer timeout a pending peer stops counting towards
             // the parallelism factor at once, so one drain sends FIND_NODE to all five seeds (alpha = 3);
@@ -1914,8 +2288,8 @@ fn witnesses() -> Vec<(&'static str, Header, Vec<Ev>)> {
                 cmd(0, 0, 1),
                 Ev::Opened(0, 0),
                 Ev::Opened(4, 4),
-                Ev::Fut { id: 0, res: Res::Read(Msg::FindNode(vec![])), how: 0 },
-                Ev::Fut { id: 4, res: Res::ReadFail, how: 0 },
+                fut_ev(0, None, Res::Read(Msg::FindNode(vec![])), 0),
+                fut_ev(4, None, Res::ReadFail, 0),
             ],
         ),
     ]
